@@ -167,6 +167,7 @@ typedef struct vt {
   uint64_t rng;
   uint64_t hits[MYTH_VERIF_N_IDS];
   int used;
+  int shared;   /* overflow slot used by several OS threads: no per-thread identity */
   int rank;
   int tid;
   int nb_depth;
@@ -198,18 +199,40 @@ static inline uint64_t rdtsc_(void) {
   return ((uint64_t)hi << 32) | lo;
 }
 
+/* When the table is full, slots whose OS thread has exited are taken over (long init/fini histories create
+   thousands of worker OS threads).  A slot is reclaimed only if its tid no longer exists, so its former owner
+   is certainly gone; the hit counters stay (they are totals), the per-thread state is reset.  If nothing can be
+   reclaimed the last slot is shared and marked so: checks that need a per-thread identity skip it. */
+static _Atomic int g_vt_reclaim_lock;
+static void vt_reset(vt_t * t, int i) {
+  t->used = 1;
+  t->rank = -1;
+  t->tid = (int)syscall(SYS_gettid);
+  t->rng = mix64(cfg.seed ^ ((uint64_t)(i + 1) << 32) ^ (uint64_t)t->tid) | 1;
+  t->last_spin_id = -1;
+  t->nb_depth = 0; t->lock_run = 0; t->rep_id = -1; t->spin_run = 0;
+  t->pending_q = 0; t->pending_kind = 0; t->fin_pre_th = 0; t->fin_pre_gen = 0;
+}
 static vt_t * vt_get(void) {
   vt_t * t = tls_vt;
   if (t) return t;
   cfg_init();
   int i = atomic_fetch_add(&g_n_vt, 1);
-  if (i >= MAX_VT) i = MAX_VT - 1; /* shared overflow slot (counters only approximate) */
+  if (i >= MAX_VT - 1) {
+    int j, found = -1, exp = 0;
+    while (!atomic_compare_exchange_weak(&g_vt_reclaim_lock, &exp, 1)) exp = 0;
+    int pid = (int)getpid();
+    for (j = 0; j < MAX_VT - 1; j++) {
+      if (g_vt[j].used && g_vt[j].tid > 0 && syscall(SYS_tgkill, pid, g_vt[j].tid, 0) == -1 && errno == ESRCH) { found = j; break; }
+    }
+    if (found >= 0) { t = &g_vt[found]; vt_reset(t, found); }
+    atomic_store(&g_vt_reclaim_lock, 0);
+    if (found < 0) { t = &g_vt[MAX_VT - 1]; t->used = 1; t->shared = 1; t->rank = -1; t->last_spin_id = -1; if (!t->rng) t->rng = mix64(cfg.seed) | 1; }
+    tls_vt = t;
+    return t;
+  }
   t = &g_vt[i];
-  t->used = 1;
-  t->rank = -1;
-  t->tid = (int)syscall(SYS_gettid);
-  t->rng = mix64(cfg.seed ^ ((uint64_t)(i + 1) << 32)) | 1;
-  t->last_spin_id = -1;
+  vt_reset(t, i);
   tls_vt = t;
   return t;
 }
@@ -369,6 +392,7 @@ static void spin_verdict(vt_t * t, int id, uint64_t run, struct timespec * t0);
 void myth_verif_point(int id) {
   vt_t * t = vt_get();
   t->hits[id]++;
+  if (t->shared) { if (cfg.profile != PROF_CALM && !cfg.no_inject[id]) inject(t, id); return; }
   /* points inside the sleep queue's critical section sit inside retry loops (wake spins):
      they do not end a spin run */
   if (id != MYTH_VERIF_ID_SQ_DEQ_LOCKED && id != MYTH_VERIF_ID_SQ_ENQ_LOCKED) { t->last_spin_id = -1; t->lock_run = 0; }
@@ -417,6 +441,7 @@ static void spin_verdict(vt_t * t, int id, uint64_t run, struct timespec * t0) {
 void myth_verif_spin(int id) {
   vt_t * t = vt_get();
   t->hits[id]++;
+  if (t->shared) { if (id != MYTH_VERIF_ID_SPINLOCK_SPIN && (t->hits[id] & 63) == 0) myth_verif_real_yield(); return; }
   if (id == MYTH_VERIF_ID_SPINLOCK_SPIN) {
     /* A spin-lock waiter does not yield (the real code does not either: a waiter that gives up its
        time slice after a few attempts can be starved for seconds on an oversubscribed machine by a
@@ -443,6 +468,7 @@ void myth_verif_spin(int id) {
 
 void myth_verif_nb_begin(const char * what) {
   vt_t * t = vt_get();
+  if (t->shared) return;
   t->nb_depth++;
   t->nb_what = what;
 }
@@ -564,7 +590,7 @@ void myth_verif_owner(int list_rank, const char * what) {
   /* records and stacks are kept on per-worker lists that are not synchronised: the list that receives a
      released resource must be the one of the worker executing the release */
   vt_t * t = vt_get();
-  if (t->rank >= 0 && list_rank != t->rank) {
+  if (!t->shared && t->rank >= 0 && list_rank != t->rank) {
     myth_verif_violation("ledger:released-to-foreign-worker-list",
                          "a %s is being put on the unsynchronised free list of worker %d by code running on worker %d",
                          what, list_rank, t->rank);
@@ -838,6 +864,8 @@ unsigned int myth_verif_seed(int rank, unsigned int dflt) {
 
 void myth_verif_ev(int kind, const void * a, long b) {
   vt_t * t = vt_get();
+  if (t->shared && (kind == MYTH_VERIF_EV_FENCE_RW || kind == MYTH_VERIF_EV_Q_STORE_TOP || kind == MYTH_VERIF_EV_Q_STORE_BASE ||
+                    kind == MYTH_VERIF_EV_Q_LOAD_BASE || kind == MYTH_VERIF_EV_Q_LOAD_TOP)) return;   /* the trace rule needs a per-thread trace */
   switch (kind) {
   case MYTH_VERIF_EV_FENCE_RW:
     t->pending_q = 0;
